@@ -28,7 +28,7 @@ class Gen:
                   "section_order": 0.2, "subgroups": 0.25, "group": 0.25, "toplevel": 0.5,
                   "custom_lists": 0.3, "paths": 0.3, "settings": 0.15, "single": 0.12, "partial": 0.3,
                   "align": 0.3, "gp": 0.2, "max_segments": 5, "max_files": 5, "max_depth": 3,
-                  "dup_opts": 0.1, "makerom": 0.3, "tail": 0.3, "dpath": 0.4, "header": 0.3}
+                  "dup_opts": 0.1, "makerom": 0.3, "tail": 0.3, "dpath": 0.4, "header": 0.3, "linkable": False}
         if profile:
             self.p.update(profile)
 
@@ -94,7 +94,7 @@ class Gen:
             rec["files"] = [self.file_entry(sections, depth + 1) for _ in range(self.r.randint(1, 3))]
         elif r < self.p["group"] + 0.08:
             rec["kind"] = "pad"
-            rec["pad_amount"] = self.pick([0, 4, 0x10, 0x100, 0xFFFFFFFF])
+            rec["pad_amount"] = self.pick([0, 4, 0x10, 0x100] + ([] if self.p["linkable"] else [0xFFFFFFFF]))
             rec["section"] = self.pick(sections + [".nosuch"])
         elif r < self.p["group"] + 0.16:
             rec["kind"] = "linker_offset"
@@ -109,7 +109,7 @@ class Gen:
                 rec["kind"] = "archive"
             kind = rec.get("kind") or ("archive" if rec["path"].endswith(".a") else "object")
             if kind == "archive" and self.r.random() < 0.5:
-                rec["subfile"] = self.pick(["mem.o", "str.o", "*", "a b"])
+                rec["subfile"] = self.pick(["mem.o", "str.o", "*"] + ([] if self.p["linkable"] else ["a b"]))
             if self.chance("section_order"):
                 n = self.r.randint(1, 4)
                 keys = self.subset(sections + SUB_POOL[:2], 1, n)
@@ -138,11 +138,17 @@ class Gen:
         s["files"] = [self.file_entry(sections, 0) for _ in range(self.r.randint(1, self.p["max_files"]))]
         a = self.r.random()
         if a < 0.3:
-            s["fixed_vram"] = self.pick([0x80000400, 0x80000460, 0x05000000, 0, 0xFFFFFFF0])
+            s["fixed_vram"] = self.pick([0x80000400, 0x80000460, 0x05000000, 0] +
+                                        ([0x80200000] if self.p["linkable"] else [0xFFFFFFF0]))
         elif a < 0.4:
             s["fixed_symbol"] = self.pick(SYMS)
         elif a < 0.55 and len(all_names) > 1:
-            s["follows_segment"] = self.pick([n for n in all_names if n != name] or all_names)
+            earlier = all_names[:all_names.index(name)]
+            if self.p["linkable"] and self.r.random() < 0.9:
+                if earlier:
+                    s["follows_segment"] = self.pick(earlier)
+            else:
+                s["follows_segment"] = self.pick([n for n in all_names if n != name] or all_names)
         elif a < 0.75:
             if classes:
                 s["vram_class"] = self.pick(classes)
@@ -252,8 +258,9 @@ class Gen:
         if self.chance("toplevel"):
             l = []
             for _ in range(self.r.randint(1, 4)):
-                a = {"name": self.pick(SYMS + ["dummy1", "dummy2"]),
-                     "value": self.pick(["0x80000000", "sym_a + 4", "boot_VRAM", "1"])}
+                a = {"name": self.pick((["usr_a", "usr_b"] if self.p["linkable"] else SYMS) + ["dummy1", "dummy2"]),
+                     "value": self.pick(["0x80000000", "sym_a + 4", "gFoo", "1"] if self.p["linkable"]
+                                        else ["0x80000000", "sym_a + 4", "boot_VRAM", "1"])}
                 for f in ("provide", "hidden"):
                     if self.r.random() < 0.3:
                         a[f] = self.r.random() < 0.5
@@ -270,7 +277,10 @@ class Gen:
         if self.chance("toplevel"):
             l = []
             for _ in range(self.r.randint(1, 3)):
-                a = {"check": self.pick(["boot_VRAM_END <= 0x80400000", "1", "0", "sym_a == sym_a"]),
+                a = {"check": self.pick((["1", "sym_a == sym_a", "gFoo != 0", "bar < 0x2000"] +
+                                         (["0", "gFoo == 0"] if self.r.random() < 0.08 else []))
+                                        if self.p["linkable"] else
+                                        ["boot_VRAM_END <= 0x80400000", "1", "0", "sym_a == sym_a"]),
                      "error_message": self.pick(["boot is too big", "oops", "msg with 'quote'"])}
                 self.conds(a)
                 l.append(a)
